@@ -42,10 +42,12 @@ def peers(tier):
         'strict-kex-multi': dict(kex=['curve25519-sha256', 'kex-strict-s-v00@openssh.com'], key=['ssh-ed25519'],
                                  enc=['chacha20-poly1305@openssh.com', 'aes128-cbc', 'aes192-cbc', 'aes256-cbc', '3des-cbc', 'aes256-ctr'],
                                  mac=['hmac-sha2-256-etm@openssh.com', 'hmac-sha2-512-etm@openssh.com', 'umac-128-etm@openssh.com', 'hmac-sha1-etm@openssh.com'], banner=b'SSH-2.0-OpenSSH_9.6'),
+        'client-role': dict(client_role=True, kex=['curve25519-sha256', 'diffie-hellman-group14-sha1', 'kex-strict-c-v00@openssh.com'], key=['ssh-ed25519', 'ssh-rsa'],
+                            enc=['chacha20-poly1305@openssh.com', 'aes128-cbc', 'aes256-ctr'], mac=['hmac-sha1-etm@openssh.com', 'hmac-sha2-256'], banner=b'SSH-2.0-PuTTY_Release_0.76'),
         'nonascii-banner': dict(kex=['curve25519-sha256'], key=['ssh-ed25519'], enc=['aes256-ctr'], mac=['hmac-sha2-256'], banner=b'SSH-2.0-Frob\x80SSH'),
     }
     if tier == 'quick':
-        keep = ['clean', 'warn-only', 'fail-mixed', 'terrapin', 'unknown', 'gss', 'rsa2048', 'gex1024', 'ssh1', 'header', 'cert', 'nonascii-banner', 'strict-kex-multi']
+        keep = ['clean', 'warn-only', 'fail-mixed', 'terrapin', 'unknown', 'gss', 'rsa2048', 'gex1024', 'ssh1', 'header', 'cert', 'nonascii-banner', 'strict-kex-multi', 'client-role']
         ps = {k: ps[k] for k in keep}
     else:
         # every severity mix of the database per category as extra peers
@@ -74,6 +76,9 @@ def make_server(spec):
 
 
 def run_opts(spec, opts, env=None):
+    if spec.get('client_role'):
+        sp = {k: v for k, v in spec.items() if k != 'client_role'}
+        return H.client_audit(P.Client(**sp), opts=list(opts))
     srv = make_server(spec)
     return H.audit(srv, opts=list(opts) + ['--skip-rate-test'])
 
@@ -225,6 +230,8 @@ def run(tier, seed):
     vcases = []
     osets = optsets()
     for pname, spec in ps.items():
+        if spec.get('client_role'):
+            continue
         for opts in H.pick(osets, seed + len(vcases), 2 if tier == 'quick' else 6):
             vcases.append({'label': '%s %s' % (pname, opts), 'opts': list(opts), 'make': (lambda spec=spec: make_server(spec))})
     validated = H.validate_traces(vcases, st)
